@@ -99,7 +99,14 @@ func RunProcSchedule(id int, s ProcSchedule, timeout time.Duration) vt.Ev {
 			got = append(got, i)
 		}
 	}()
-	// the two harness goroutines identify themselves by their first gate
+	waiterDone := make(chan struct{})
+	go func() {
+		defer close(waiterDone)
+		g.Hook("x.wait")
+		p.Wait()
+		g.Hook("x.returned")
+	}()
+	// the harness goroutines identify themselves by their first gate
 	base := g.NameNew
 	g.NameNew = func(site string) (string, error) {
 		switch site {
@@ -107,6 +114,8 @@ func RunProcSchedule(id int, s ProcSchedule, timeout time.Duration) vt.Ev {
 			return "m0", nil
 		case "r.read":
 			return "r0", nil
+		case "x.wait":
+			return "x0", nil
 		}
 		return base(site)
 	}
@@ -133,6 +142,9 @@ func RunProcSchedule(id int, s ProcSchedule, timeout time.Duration) vt.Ev {
 	if err := g.Await("r0", "r.read"); err != nil {
 		return fail(-1, err)
 	}
+	if err := g.Await("x0", "x.wait"); err != nil {
+		return fail(-1, err)
+	}
 	for i, st := range s.Sched {
 		if err := g.Exec(i, st, nil, nil); err != nil {
 			return fail(i, err)
@@ -141,7 +153,7 @@ func RunProcSchedule(id int, s ProcSchedule, timeout time.Duration) vt.Ev {
 	for _, c := range []struct {
 		ch   chan struct{}
 		what string
-	}{{mainDone, "the submitter"}, {readerDone, "the reader (result channel never closed)"}} {
+	}{{mainDone, "the submitter"}, {readerDone, "the reader (result channel never closed)"}, {waiterDone, "the goroutine calling Wait"}} {
 		select {
 		case <-c.ch:
 		case <-time.After(timeout):
